@@ -1,15 +1,120 @@
 package comp
 
 import (
+	"errors"
 	"fmt"
 	"math"
 	"os"
+	"path/filepath"
+	"time"
 
+	badger "github.com/dgraph-io/badger/v4"
 	"github.com/dgraph-io/badger/v4/y"
 
 	"verif/h/core"
 	"verif/h/gen"
 )
+
+// c19DB: the database level - Get and key iterators skip tables through their bloom filters. Several
+// generations of equally shaped key sets, each flushed to tables (and partly compacted), separated by
+// DropAll (table ids start again) or DropPrefix; plain and encrypted (the decrypted table index, bloom
+// filter included, then lives in the index cache). Every key of the current generation must be found
+// by Get and by a key iterator.
+func c19DB(c *core.Ctx, work string, idx int, fp float64) {
+	dir := filepath.Join(work, fmt.Sprintf("db%d", idx))
+	_ = os.MkdirAll(dir, 0o755)
+	defer os.RemoveAll(dir)
+	o := badger.DefaultOptions(dir).WithLogger(nil)
+	o.MemTableSize = 1 << 20
+	o.NumCompactors = 0
+	o.NumLevelZeroTables = 50
+	o.NumLevelZeroTablesStall = 100
+	o.BloomFalsePositive = fp
+	o.ValueThreshold = 1 << 10
+	o.MetricsEnabled = false
+	o.BlockCacheSize = 8 << 20
+	enc := idx%2 == 0
+	if enc {
+		o.EncryptionKey = []byte("0123456789abcdef0123456789abcdef")[:[]int{16, 24, 32}[idx%3]]
+		o.IndexCacheSize = 16 << 20
+	}
+	db, err := badger.Open(o)
+	if err != nil {
+		c.Inconclusive("open: " + err.Error())
+		return
+	}
+	defer db.Close()
+	r := c.Rand(fmt.Sprintf("c19-db-%d", idx))
+	n := 40 + r.Intn(200)
+	for g := 0; g < 4; g++ {
+		tables := 1 + r.Intn(3)
+		for t := 0; t < tables; t++ {
+			wb := db.NewWriteBatch()
+			for i := 0; i < n; i++ {
+				_ = wb.Set([]byte(fmt.Sprintf("g%d-t%d-key-%05d", g, t, i)), []byte(fmt.Sprintf("val-%d-%d-%05d", g, t, i)))
+			}
+			if err := wb.Flush(); err != nil {
+				c.Inconclusive("write: " + err.Error())
+				return
+			}
+			if _, err := db.VerifRotateMemtable(); err != nil || !db.VerifWaitFlushed(20*time.Second) {
+				c.Inconclusive(fmt.Sprintf("flush: %v", err))
+				return
+			}
+		}
+		c.Eval(1)
+		hidden, first := 0, ""
+		err := db.View(func(txn *badger.Txn) error {
+			for t := 0; t < tables; t++ {
+				for i := 0; i < n; i++ {
+					k := []byte(fmt.Sprintf("g%d-t%d-key-%05d", g, t, i))
+					c.Count("db.keys_looked_up", 1)
+					_, gerr := txn.Get(k)
+					if errors.Is(gerr, badger.ErrKeyNotFound) {
+						hidden++
+						if first == "" {
+							first = string(k) + " (Get)"
+						}
+						continue
+					} else if gerr != nil {
+						return gerr
+					}
+					if i%4 == 0 {
+						it := txn.NewKeyIterator(k, badger.DefaultIteratorOptions)
+						it.Rewind()
+						if !it.Valid() {
+							hidden++
+							if first == "" {
+								first = string(k) + " (key iterator)"
+							}
+						}
+						it.Close()
+					}
+				}
+			}
+			return nil
+		})
+		wit := map[string]any{"generation": g, "tables": tables, "keys_per_table": n, "fp": fp, "encrypted": enc}
+		if err != nil {
+			c.Violation("C19|db|read-error", fmt.Sprintf("generation %d: %v", g, err), wit)
+			return
+		}
+		if hidden > 0 {
+			c.Violation("C19|db|hidden", fmt.Sprintf("generation %d: %d lookups of keys that are stored in flushed tables find nothing (first: %s)", g, hidden, first), wit)
+			return
+		}
+		c.Distinct(fmt.Sprintf("db|enc=%v|fp=%v|gen=%d", enc, fp, g))
+		if g%2 == 0 {
+			if err := db.DropAll(); err != nil {
+				c.Violation("C19|db|dropall-error", err.Error(), wit)
+				return
+			}
+		} else if err := db.DropPrefix([]byte(fmt.Sprintf("g%d-", g))); err != nil {
+			c.Violation("C19|db|dropprefix-error", err.Error(), wit)
+			return
+		}
+	}
+}
 
 // C19 checks that bloom filters never hide an added key, at the filter level and at the table level.
 func C19(c *core.Ctx) {
@@ -95,6 +200,11 @@ func C19(c *core.Ctx) {
 		if i < 2 {
 			c.Sample(map[string]any{"fp": cfg.Bloom, "entries": len(ents)})
 		}
+	}
+	c.Rule("database level: 4 generations of equally shaped key sets, each flushed into 1-3 tables, separated by DropAll (table ids restart) or DropPrefix, plain and encrypted " +
+		"(index cache), BloomFalsePositive from the ladder: every stored key must be found by Get and by a key iterator")
+	for i := 0; i < c.Pick(6, 44); i++ {
+		c19DB(c, dir, i, fps[(i*5+2)%len(fps)])
 	}
 	c.Assume("hash space sampled (adversarial classes + random), not all 2^32 hashes; DB-level Get/key-iterator paths are checked by the history engine on bloom-enabled tables")
 }
